@@ -38,6 +38,7 @@ def run(ctx, deep=False):
     for gen in (4, 5):
         total += frame_try.run_gen(ctx, gen, n)
     ctx.count("frames", total)
+    unknown_ids(ctx, frame_try, thorough)
     for gen in (4, 5):
         items = _garbage_scripts(ctx.rng, 600 if thorough else 120) + sockcheck.gen_scripts(ctx.seed * 53 + gen, [("faults", 1500 if thorough else 200)])
         good = sockcheck.judge_family(ctx, "C17", items, MONITORS, gen=gen)
@@ -55,6 +56,64 @@ def run(ctx, deep=False):
                           "%s (%d cases), e.g. %s" % (cls, count, example[:400]), kind="input", mismatch_class=cls, example=example,
                           implementation_output=example, spec_verdict="decoded to the vendor reading")
     ctx.assumptions += ["AirTouch 5 byte stuffing (a 0x00 after three 0x55) is not implemented by the package and not modelled (frames are unstuffed on both sides)"]
+
+
+def unknown_ids(ctx, frame_try, thorough):
+    """the statement itself, on the implementation: a well-formed frame of an unregistered type / 0x1F sub-id / 0xC0 sub-type is
+    delivered as an unsupported message carrying its payload unchanged, for every payload length from 0 (the bare echo of a
+    request) upwards; nothing is left over"""
+    import struct
+    for gen in (4, 5):
+        real = frame_try.Real(gen)
+        reg = real.reg
+        known_top = set()
+        for mid in range(256):
+            try:
+                reg.get_decoder(mid)
+                if type(reg.get_decoder(mid)).__name__ != "UnsupportedMessageDecoder":
+                    known_top.add(mid)
+            except Exception:  # noqa: BLE001
+                pass
+        x1f_known = set(frame_try._x1f_ids(real))
+        cs_known = set(frame_try._cs_ids(real)) if gen == 5 else set()
+        payloads = [b"", b"\x01", b"\x01\x02", bytes(range(5)), bytes([0x55, 0x55, 0x55, 0xAA, 0x80]), bytes(20)]
+        cases = []
+        tops = [m for m in range(256) if m not in known_top]
+        for mid in (tops if thorough else tops[::9]):
+            for pl in payloads:
+                cases.append(("type 0x%02x" % mid, mid, pl, pl))
+        subs = [x for x in list(range(0xFF00, 0xFF80)) + [0x0000, 0x1234, 0xFFFF] if x not in x1f_known]
+        for sub in (subs if thorough else subs[::5]):
+            for pl in payloads:
+                cases.append(("0x1F sub-id 0x%04x" % sub, 0x1F, struct.pack("!H", sub) + pl, pl))
+        if gen == 5:
+            for sub in [x for x in range(256) if x not in cs_known][:: (1 if thorough else 7)]:
+                for pl in payloads[:4]:
+                    body = struct.pack("!BxHHH", sub, 0, len(pl), 1 if pl else 0) + pl
+                    cases.append(("0xC0 sub-type 0x%02x" % sub, 0xC0, body, None))
+        for what, mid, payload, inner in cases:
+            fr = real.raw_frame(mid, payload, frm=0x90 if mid == 0x1F else 0x80)
+            text, res = real.read_one(fr)
+            ctx.case(("unknown-id", gen, what, len(payload)))
+            ctx.count("unknown-id:%d:%s" % (gen, text.split(" ")[0] + (" " + text.split(" ")[1] if text.startswith("R") else "")))
+            why = None
+            if res is None:
+                why = "the frame is %s instead of being delivered" % ("rejected (%s)" % text[2:] if text.startswith("R") else "not completed")
+            else:
+                h, m = res
+                leaf = getattr(m, "sub_message", m)
+                if "Unsupported" not in type(leaf).__name__:
+                    why = "delivered as %s, not as an unsupported message" % type(leaf).__name__
+                elif not text.endswith("|0"):
+                    why = "bytes are left over after the frame"
+                elif inner is not None and bytes(getattr(leaf, "raw_data", getattr(leaf, "data", b"")) or b"") != inner and inner not in bytes(str(leaf), "latin1", "ignore"):
+                    got = getattr(leaf, "raw_data", getattr(leaf, "data", None))
+                    if got is not None and bytes(got) != inner:
+                        why = "the unsupported message carries %s, the frame's payload is %s" % (bytes(got).hex(), inner.hex())
+            if why:
+                ctx.violation("C17:%d:unknown-id" % gen, "AirTouch %d, well-formed frame of unregistered %s with a %d-byte payload (%s): %s" % (
+                    gen, what, len(inner if inner is not None else payload), fr.hex(), why), kind="input", gen=gen, frame=fr.hex(), implementation_output=text, spec_verdict="delivered as unsupported, payload unchanged")
+                break
 
 
 def search(ctx):
